@@ -369,9 +369,44 @@ def Edit.insertOffs (ci : Nat) (e : Edit) (lbl : Nat) : Edit × Bool :=
       let pts := if i = 0 then c.pts ++ new else c.pts.take i ++ new ++ c.pts.drop i
       ({ e with g := setPts e.g ci c pts }, true)
 
+/-- pair a container with "ok", or with `ValueError` when the flag is false -/
+def Glyph.withRes (g : Glyph) (ok : Bool) : Glyph × Res := if ok then (g, .ok) else (g, .err .value)
+
 def lastTyp (s : List LP) : Typ := match s.getLast? with
   | some p => p.2.typ
   | none => .off
+
+/-- the body of `removeSegment` once the three segments are known; `n` = number of points -/
+def removeSegmentCore (g : Glyph) (ci n : Nat) (seg next prev : List LP) (preserve : Bool) : Glyph × Res :=
+  let e0 : Edit := { g := g, lbls := List.range n }
+  if preserve = false ∨ (lastTyp prev = .line ∧ lastTyp seg = .line ∧ lastTyp next = .line) then
+    match Edit.removeAll ci e0 (seg.map (·.1)) with
+    | (e1, false) => (e1.g, .err .value)
+    | (e1, true) =>
+      if lastTyp seg = .move then
+        match Edit.removeAll ci e1 (next.dropLast.map (·.1)) with
+        | (e2, false) => (e2.g, .err .value)
+        | (e2, true) =>
+          match next.getLast? with
+          | none => (e2.g, .ok)
+          | some p => ((Edit.setTyp ci e2 p.1 .move).g, .ok)
+      else (e1.g, .ok)
+  else
+    -- gather the needed points (reads `segment[-2]`, `nextSegment[-2]` for curves)
+    if lastTyp seg = .curve ∧ seg.length < 2 then (g, .err .index)
+    else if lastTyp seg ≠ .curve ∧ lastTyp seg ≠ .line then (g, .err .notImplemented)
+    else if lastTyp next = .curve ∧ next.length < 2 then (g, .err .index)
+    else if lastTyp next ≠ .curve ∧ lastTyp next ≠ .line then (g, .err .notImplemented)
+    else
+      match Edit.removeAll ci e0 (seg.map (·.1)) with
+      | (e1, false) => (e1.g, .err .value)
+      | (e1, true) =>
+        if lastTyp next ≠ .curve then
+          match next.getLast? with
+          | none => (e1.g, .ok)
+          | some p => (Edit.insertOffs ci (Edit.setTyp ci e1 p.1 .curve) p.1).1.g.withRes
+                        (Edit.insertOffs ci (Edit.setTyp ci e1 p.1 .curve) p.1).2
+        else (e1.g, .ok)     -- only coordinates of the next segment's handles change
 
 /-- `Contour.removeSegment(segmentIndex, preserveCurve)` -/
 def removeSegment (g : Glyph) (ci si : Nat) (preserve : Bool) : Glyph × Res :=
@@ -383,52 +418,45 @@ def removeSegment (g : Glyph) (ci si : Nat) (preserve : Bool) : Glyph × Res :=
     match segs[si]? with
     | none => (g, .err .index)
     | some seg =>
-      let next := segs[(if si + 1 = n then 0 else si + 1)]?.getD []
-      let prev := segs[(if si = 0 then n - 1 else si - 1)]?.getD []
-      let e0 : Edit := { g := g, lbls := List.range c.pts.length }
-      if preserve = false ∨ (lastTyp prev = .line ∧ lastTyp seg = .line ∧ lastTyp next = .line) then
-        match Edit.removeAll ci e0 (seg.map (·.1)) with
-        | (e1, false) => (e1.g, .err .value)
-        | (e1, true) =>
-          if lastTyp seg = .move then
-            match Edit.removeAll ci e1 (next.dropLast.map (·.1)) with
-            | (e2, false) => (e2.g, .err .value)
-            | (e2, true) =>
-              match next.getLast? with
-              | none => (e2.g, .ok)
-              | some p => ((Edit.setTyp ci e2 p.1 .move).g, .ok)
-          else (e1.g, .ok)
-      else
-        -- gather the needed points (reads `segment[-2]`, `nextSegment[-2]` for curves)
-        if lastTyp seg = .curve ∧ seg.length < 2 then (g, .err .index)
-        else if lastTyp seg ≠ .curve ∧ lastTyp seg ≠ .line then (g, .err .notImplemented)
-        else if lastTyp next = .curve ∧ next.length < 2 then (g, .err .index)
-        else if lastTyp next ≠ .curve ∧ lastTyp next ≠ .line then (g, .err .notImplemented)
-        else
-          match Edit.removeAll ci e0 (seg.map (·.1)) with
-          | (e1, false) => (e1.g, .err .value)
-          | (e1, true) =>
-            if lastTyp next ≠ .curve then
-              match next.getLast? with
-              | none => (e1.g, .ok)
-              | some p =>
-                let e2 := Edit.setTyp ci e1 p.1 .curve
-                match Edit.insertOffs ci e2 p.1 with
-                | (e3, false) => (e3.g, .err .value)
-                | (e3, true) => (e3.g, .ok)
-            else (e1.g, .ok)     -- only coordinates of the next segment's handles change
+      removeSegmentCore g ci c.pts.length seg
+        (segs[(if si + 1 = n then 0 else si + 1)]?.getD [])
+        (segs[(if si = 0 then n - 1 else si - 1)]?.getD []) preserve
 
 /-- discard the identifiers of the points whose label is not kept -/
 def discardUnlessLabel (kept : List Nat) (r : List Id) (p : LP) : List Id :=
   if p.1 ∈ kept then r else discardOpt r p.2.id
+
+/-- the points of `lp` (labelled `c.pts`) that `split` keeps, given the positions `fi` of the
+segment's first point (the previous on-curve) and `li` of its last point -/
+def splitKept (lp : List LP) (fi li : Nat) : List LP × List LP :=
+  if fi ≥ li then ((lp.drop li).take (fi + 1 - li), [])     -- the segment wraps around the list end
+  else (lp.take (fi + 1), lp.drop li)
+
+/-- the body of `split` with `insert=True`: the new point list is `first + new + last`; identifiers of
+points that are not kept are discarded (patched) -/
+def splitCore (g : Glyph) (ci : Nat) (c : Contour) (fi li : Nat) (new : List Point) : Glyph × Res :=
+  let lp := label c.pts
+  let k := splitKept lp fi li
+  let kept := (k.1 ++ k.2).map (·.1)
+  ({ setPts g ci c (k.1.map (·.2) ++ new ++ k.2.map (·.2)) with
+      reg := lp.foldl (discardUnlessLabel kept) g.reg }, .ok)
+
+/-- the points `split` inserts for a segment ending in a point of type `t` whose point count
+(including the previous on-curve) is `len` -/
+def splitNew (t : Typ) (len : Nat) : Except Err (List Point) :=
+  match t with
+  | .line => if len = 2 then .ok [⟨.line, none⟩] else .error .value
+  | .curve =>
+    if len = 4 then .ok [⟨.off, none⟩, ⟨.off, none⟩, ⟨.curve, none⟩, ⟨.off, none⟩, ⟨.off, none⟩]
+    else .error .value
+  | _ => .error .notImplemented
 
 /-- `Contour.splitAndInsertPointAtSegmentAndT(segmentIndex, t)` -/
 def split (g : Glyph) (ci si : Nat) : Glyph × Res :=
   match g.contours[ci]? with
   | none => (g, .err .index)
   | some c =>
-    let lp := label c.pts
-    let segs := segments lp
+    let segs := segments (label c.pts)
     let n := segs.length
     match segs[si]? with
     | none => (g, .err .index)
@@ -436,24 +464,9 @@ def split (g : Glyph) (ci si : Nat) : Glyph × Res :=
       let prev := segs[(if si = 0 then n - 1 else si - 1)]?.getD []
       match prev.getLast?, seg.getLast? with
       | some first, some lastP =>
-        let len := seg.length + 1
-        let new? : Except Err (List Point) :=
-          match lastP.2.typ with
-          | .line => if len = 2 then .ok [⟨.line, none⟩] else .error .value
-          | .curve =>
-            if len = 4 then .ok [⟨.off, none⟩, ⟨.off, none⟩, ⟨.curve, none⟩, ⟨.off, none⟩, ⟨.off, none⟩]
-            else .error .value
-          | _ => .error .notImplemented
-        match new? with
+        match splitNew lastP.2.typ (seg.length + 1) with
         | .error e => (g, .err e)
-        | .ok new =>
-          let fi := first.1
-          let li := lastP.1
-          let firstPts := if fi ≥ li then (lp.drop li).take (fi + 1 - li) else lp.take (fi + 1)
-          let lastPts := if fi ≥ li then [] else lp.drop li
-          let kept := (firstPts ++ lastPts).map (·.1)
-          let reg := lp.foldl (discardUnlessLabel kept) g.reg
-          ({ setPts g ci c (firstPts.map (·.2) ++ new ++ lastPts.map (·.2)) with reg := reg }, .ok)
+        | .ok new => splitCore g ci c first.1 lastP.1 new
       | _, _ => (g, .err .index)
 
 /-- the contour's identifier setter -/
@@ -685,11 +698,14 @@ def Glyph.stagedIds (g : Glyph) : List Id :=
 def abandon (g : Glyph) : Glyph :=
   { g with leaked := g.leaked ++ g.stagedIds, cur := none, stC := [], stK := [], stA := [], stG := [] }
 
-/-- `GlyphObjectPointPen.beginPath(identifier)` ; a contour still held by the pen is abandoned -/
-def penBegin (g : Glyph) (v : Option Id) (skip : Bool) : Glyph × Bool :=
-  let g0 : Glyph := match g.cur with
-    | some c => { g with leaked := g.leaked ++ c.ids, cur := none }
-    | none => g
+/-- the pen forgets the contour it was drawing (`self._contour = ...` overwrites it): abandoned -/
+def dropCur (g : Glyph) : Glyph :=
+  match g.cur with
+  | some c => { g with leaked := g.leaked ++ c.ids, cur := none }
+  | none => g
+
+/-- `beginPath` on a pen that holds no contour -/
+def penBeginCore (g0 : Glyph) (v : Option Id) (skip : Bool) : Glyph × Bool :=
   match v with
   | none => ({ g0 with cur := some {} }, true)
   | some x =>
@@ -697,6 +713,10 @@ def penBegin (g : Glyph) (v : Option Id) (skip : Bool) : Glyph × Bool :=
       if skip then ({ g0 with cur := some {} }, true)
       else ({ g0 with cur := some {} }, false)               -- the setter's assertion
     else ({ g0 with cur := some { id := some x }, reg := regAdd g0.reg x }, true)
+
+/-- `GlyphObjectPointPen.beginPath(identifier)` ; a contour still held by the pen is abandoned -/
+def penBegin (g : Glyph) (v : Option Id) (skip : Bool) : Glyph × Bool :=
+  penBeginCore (dropCur g) v skip
 
 /-- `GlyphObjectPointPen.addPoint(..., identifier)` -/
 def penPoint (g : Glyph) (p : Point) (skip : Bool) : Glyph × Bool :=
